@@ -31,14 +31,43 @@ static inline unsigned long d_bits(double a) { union { double d; unsigned long u
 #ifdef VERIF_FP_IEEE
 #define D_MUL(a, b) ((a) * (b))
 #define D_DIV(a, b) ((a) / (b))
+#define D_ADD(a, b) ((a) + (b))
+#define D_SUB(a, b) ((a) - (b))
+#define D_NEG(a) (-(a))
+#define D_LT(a, b) ((a) < (b))
+#define D_GT(a, b) ((a) > (b))
+#define D_LE(a, b) ((a) <= (b))
+#define D_GE(a, b) ((a) >= (b))
+#define D_EQ(a, b) ((a) == (b))
+#define D_NE(a, b) ((a) != (b))
 #else
+/* VERIF_FP_UF: every operation on doubles is an uninterpreted function of the operands' bit patterns;
+ * '+' and '*' are commutative (operands ordered by bit pattern), a > b is b < a, a >= b is b <= a. */
 double __CPROVER_uninterpreted_dmul(double, double);
 double __CPROVER_uninterpreted_ddiv(double, double);
+double __CPROVER_uninterpreted_dadd(double, double);
+double __CPROVER_uninterpreted_dsub(double, double);
+double __CPROVER_uninterpreted_dneg(double);
+_Bool __CPROVER_uninterpreted_dlt(double, double);
+_Bool __CPROVER_uninterpreted_dle(double, double);
+_Bool __CPROVER_uninterpreted_deq(double, double);
 static inline double d_mul(double a, double b)
 { return d_bits(a) <= d_bits(b) ? __CPROVER_uninterpreted_dmul(a, b) : __CPROVER_uninterpreted_dmul(b, a); }
-static inline double d_div(double a, double b) { return __CPROVER_uninterpreted_ddiv(a, b); }
+static inline double d_add(double a, double b)
+{ return d_bits(a) <= d_bits(b) ? __CPROVER_uninterpreted_dadd(a, b) : __CPROVER_uninterpreted_dadd(b, a); }
+static inline _Bool d_eq(double a, double b)
+{ return d_bits(a) <= d_bits(b) ? __CPROVER_uninterpreted_deq(a, b) : __CPROVER_uninterpreted_deq(b, a); }
 #define D_MUL(a, b) d_mul((a), (b))
-#define D_DIV(a, b) d_div((a), (b))
+#define D_DIV(a, b) __CPROVER_uninterpreted_ddiv((a), (b))
+#define D_ADD(a, b) d_add((a), (b))
+#define D_SUB(a, b) __CPROVER_uninterpreted_dsub((a), (b))
+#define D_NEG(a) __CPROVER_uninterpreted_dneg(a)
+#define D_LT(a, b) __CPROVER_uninterpreted_dlt((a), (b))
+#define D_GT(a, b) __CPROVER_uninterpreted_dlt((b), (a))
+#define D_LE(a, b) __CPROVER_uninterpreted_dle((a), (b))
+#define D_GE(a, b) __CPROVER_uninterpreted_dle((b), (a))
+#define D_EQ(a, b) d_eq((a), (b))
+#define D_NE(a, b) (!d_eq((a), (b)))
 #endif
 static inline _Bool d_finite(double x) { return x == x && x - x == 0.0; }   /* not NaN, not +-inf */
 
